@@ -269,8 +269,9 @@ def check_detector(run, db):
     n = 0
     memo = {}
     for f in tmp_fns(db):
+        lv = common.single_assignment_locals(f)      # `created = create(..); temp_stack = created;` stores create()'s result
         w = [e for e in f.events() if e['ev'] == 'assign' and tstr(e['lhs']).endswith('temp_stack')
-             and any(isinstance(st, dict) and st.get('k') == 'call' and st.get('short') == 'create' for st in subterms(e['rhs']))]
+             and any(isinstance(st, dict) and st.get('k') == 'call' and st.get('short') == 'create' for st in subterms(common.expand_locals(e['rhs'], lv)))]
         if not w:
             continue
         n += 1
@@ -278,11 +279,11 @@ def check_detector(run, db):
         if f.kind == 'ctor':
             # RAII pairing: the class's destructor gives the stack back itself (its shape is R-TS14.own), no detector needed
             dt = [g for g in db.fns.values() if g.cls == f.cls and g.kind == 'dtor']
-            if dt and any(t.get('short') == 'clear' and 'temp_stack' in tstr(t) for e2, t in flow.call_events(dt[0])):
+            if dt and any(t.get('short') == 'clear' and 'temp_stack' in tstr(common.expand_locals(t, common.single_assignment_locals(dt[0]))) for e2, t in flow.call_events(dt[0])):
                 _emit(run, 'R-TS14.detector', f, db, [], 'the stack is given back by the destructor of the same object', {'function': strip_ns(f.name), 'role': 'exit detector instantiated'})
                 continue
         for e in w:
-            creates = [db.fns.get(st.get('key')) for st in subterms(e['rhs']) if isinstance(st, dict) and st.get('k') == 'call' and st.get('short') == 'create']
+            creates = [db.fns.get(st.get('key')) for st in subterms(common.expand_locals(e['rhs'], lv)) if isinstance(st, dict) and st.get('k') == 'call' and st.get('short') == 'create']
             via_create = all(g is not None and _registers_exit_detector(db, g, memo) for g in creates)
             # on the path through this function that performs the write
             here = False
